@@ -15,6 +15,10 @@ Monitors (the first six are evaluated at every height of every layout):
   equation-renders                 sums / equations on the TikZ back-end
   diagramize-replays-wiring        function body replaying the wiring in
                                    planar order returns an equal diagram
+
+Known finding (known_findings/C20.json): a Bubble whose dom (cod) has the
+length of inside.dom (inside.cod) but other objects gets a position-less
+phantom port node from diagram2nx.add_box and cannot be drawn (KeyError).
 """
 import atexit
 import os
